@@ -2,6 +2,7 @@
 package vos
 
 import (
+	"errors"
 	"io/fs"
 	"os"
 	"time"
@@ -66,6 +67,10 @@ func (f *File) Write(b []byte) (n int, err error) {
 		n, e = f.File.Write(b)
 		return e
 	})
+	var sw *iorec.ShortWrite
+	if errors.As(err, &sw) && sw.N > 0 && sw.N < len(b) {
+		n, _ = f.File.Write(b[:sw.N]) // the part that reached the device
+	}
 	return
 }
 
